@@ -59,6 +59,16 @@ theorem C22_seq_put (s : Skiplist) (hi : Inv s) (key v : Bytes) (h : Nat) (h1 : 
     s'.toList = sortedInsert key v s.toList :=
   put_toList s hi key v h h1 hput
 
+/-- value slots are immutable: a `Put` adds exactly one fresh slot in front of the value log
+    and leaves every existing slot as it is -/
+theorem C22_seq_value_immutable (s : Skiplist) (hi : Inv s) (key v : Bytes) (h : Nat) (h1 : 1 ≤ h)
+    (s' : Skiplist) (hput : s.put key v h = some s') : s'.vals = (key, v) :: s.vals := by
+  obtain ⟨s'', e, hv, _⟩ := put_spec s hi key v h h1
+  rw [e] at hput
+  injection hput with hput
+  subst hput
+  exact hv
+
 theorem putAll_spec (s : Skiplist) (hi : Inv s) (ops : List (Bytes × Bytes × Nat))
     (hh : ∀ o ∈ ops, 1 ≤ o.2.2 ∧ o.2.2 ≤ sklMaxHeight) :
     ∃ s', s.putAll ops = some s' ∧ Inv s' ∧
